@@ -10,11 +10,10 @@ THEOREMS = [
     "C19_no_delete_on_any_failure",
     "C19_fault_patterns_fail",
     "C19_partial_failure_keeps_archives",
-    "C19_deleted_implies_archived_refuted",
-    "C19_deleted_implies_archived_outside_known",
+    "C19_deleted_implies_archived",
+    "C19_foreign_names_untouched",
     "C19_archive_roundtrip_lossless",
-    "C19_recover_roundtrip_outside_known",
-    "C19_recover_roundtrip_refuted",
+    "C19_recover_roundtrip",
     "C19_archive_names_unique_refuted",
     "C19_archive_name_determines_id",
     "C19_archive_kept_outside_known",
@@ -37,7 +36,7 @@ ASSUMPTIONS = [
 ]
 TRUSTED = [
     "Coq 8.16.1 kernel + coqc; vm_compute for closed witnesses; no native_compute",
-    "translator tools/params/p40_walarch.py (file-name formats, pad width, id filter, extension filter, the abort-on-failure branch and File::create are read from the Rust text)",
+    "translator tools/params/p40_walarch.py (file-name formats, pad width, id filter, the canonical-name condition of both scans, which directory the cleaner's archiver reads, the recovery sort and its key format, extension filter, the abort-on-failure branch and File::create are read from the Rust text)",
     "extraction: ExtrOcamlBasic only; ocaml/driver.ml, conv.ml, p_walarch.ml (parsing/printing, fixture state)",
     "correspondence harness /verif/harness (vharn fn walarch_run / walarch_rt) built against /repo with --cfg sneldb_verif, one child process per configuration",
     "python oracle: CPython json / struct / base64 (independent of model and implementation)",
@@ -45,7 +44,7 @@ TRUSTED = [
 
 CLAIMED = True
 MANIFEST = {
- "level_text": "Theorems over the model of cleaner + archiver + recovery (all WAL directory contents, keep ids, archive-directory states and per-file I/O outcomes): in conservative mode any archive failure deletes nothing and keeps the archives already written; every deleted log has an archive holding exactly its parseable entries in order unless the file name is a non-canonical alias or the cleaner was built on another directory (both refuted with witnesses, proved outside these classes); the archive encoding is the identity on entries read from a log; recovery returns the archived logs' entries in log order while ids have at most 5 digits (refuted beyond); an archive is kept by later cleanups unless a later log gets the same archive name (refuted: id reuse with equal second range overwrites). File-name formats and the abort branch are regenerated from the Rust text; the model is run against the real WalCleaner/WalArchiver/WalArchiveRecovery on real directories with injected directory faults.",
+ "level_text": "Theorems over the model of cleaner + archiver + recovery (all WAL directory contents, keep ids, archive-directory states, per-file I/O outcomes, both ways of building the cleaner): in conservative mode any archive failure deletes nothing and keeps the archives already written; every deleted log has an archive holding exactly its parseable entries in order (no exclusion since the fixes 1c3fa90/db8e58e); files with foreign names are never removed; the archive encoding is the identity on entries read from a log; recovery returns the archived logs' entries in log order for ids of any width (since fix 06752f6); an archive is kept by later cleanups unless a later log gets the same archive name (refuted: id reuse with equal second range overwrites - the one known class left). File-name formats, the scan condition, the archiver's directory, the recovery sort and the abort branch are regenerated from the Rust text; the model is run against the real WalCleaner/WalArchiver/WalArchiveRecovery on real directories with injected directory and write faults.",
  "design_ref": "DESIGN.md §6 C19",
  "level_note": "Trusted: Coq kernel; tools/params/p40_walarch.py; ExtrOcamlBasic extraction + OCaml driver; the Rust harness; CPython json (oracle). Line recognition (serde_json), zstd, rmp-serde are modelled by their effect, tied by the differential run only. I/O errors other than structural ones, read_dir order and a concurrent writer are not exercised on the real code."
 }
@@ -762,26 +761,23 @@ def judge(c, impl):
             if mode == "c":
                 # which injected faults apply to this round (derived from the inputs only)
                 fault = first_fault = None
-                for n in wal:
+                # eligible = the canonically named logs below keep in the directory being cleaned
+                for n in target:
                     fault = None
                     i = scan_id(n)
-                    if i is None or not i < keep:
+                    if i is None or not i < keep or n != canonical(i):
                         continue
-                    cn = canonical(i)
-                    if cn not in wal:
-                        # a foreign name without its canonical sibling: whether the implementation treats it as
-                        # eligible (and fails on it) or ignores it is not a fault of the archive directory
-                        continue
-                    elif wal[cn] is None:
+                    cn = n
+                    if target[cn] is None:
                         fault = f"{cn!r} is a directory"
-                    elif read_file(wal[cn]) is None:
+                    elif read_file(target[cn]) is None:
                         fault = f"{cn!r} has a line that is not UTF-8"
                     elif root_kind == "f":
                         fault = "the archive directory path is a regular file"
-                    elif predicted_archive_name(i, read_file(wal[cn])) in squat:
+                    elif predicted_archive_name(i, read_file(target[cn])) in squat:
                         fault = f"a directory occupies the archive name of {cn!r}"
                     else:
-                        touched.add(predicted_archive_name(i, read_file(wal[cn])))
+                        touched.add(predicted_archive_name(i, read_file(target[cn])))
                         if starve:
                             fault = f"writing the archive of {cn!r} fails (file size limit 0)"
                     if fault and first_fault is None:
@@ -809,11 +805,8 @@ def judge(c, impl):
     for d in deleted:
         if d["entries"] is not None and any(a[5] == d["entries"] and a[1] == d["id"] for a in decodable.values()):
             continue
-        if d["via_x"]:
-            cls = "CleanerDirMismatch"
-        elif d["name"] != canonical(d["id"]):
-            cls = "AliasedLogName"
-        elif any(o is not d and o["entries"] is not None and pname(o) == pname(d) and o["round"] > d["round"] for o in deleted):
+        # fixed since 1c3fa90 / db8e58e: a foreign file name or a cleaner on its own directory is no excuse any more
+        if d["entries"] is not None and any(o is not d and o["entries"] is not None and pname(o) == pname(d) and o["round"] > d["round"] for o in deleted):
             cls = "ArchiveNameReused"
         else:
             cls = None
@@ -851,9 +844,8 @@ def judge(c, impl):
                 if found is None:
                     if p1_failed:
                         continue      # already reported by P1 with its class
-                    wide = any(x["id"] >= 100000 for x in deleted) and len({len(str(max(x["id"], 10000))) for x in deleted}) > 1
-                    fails.append((f"recover_all does not return the entries of log {d['name'].decode('utf-8', 'replace')} in log order",
-                                  "WideLogIdOrder" if wide else None))
+                    # fixed since 06752f6: ids of any width must come back in id order
+                    fails.append((f"recover_all does not return the entries of log {d['name'].decode('utf-8', 'replace')} in log order", None))
                     break
                 pos = found + len(es)
     return fails
